@@ -8,7 +8,10 @@ Import ListNotations.
 Open Scope N_scope.
 
 (* For every prefix of complete elements and every write fault: the loop stops
-   exactly once (closing the keepalive quit channel is its last action); exactly one
+   exactly once: the keepalive quit channel is closed once, BEFORE the loss is reported
+   (under a StreamManager the Disconnected handler only returns when a new session is
+   up; a keepalive still ticking during the outage pings a transport that is being
+   reconnected), and after it nothing is routed or written any more; exactly one
    Disconnected event is emitted (also when the server closed the stream itself), it
    carries the stream-management count; the error callback runs exactly once for a
    loss (plus once per stream error the server had sent; not for a clean server
@@ -17,7 +20,7 @@ Theorem C12_reported_once : forall items inb nw wf,
   let tr := crecv inb nw wf items in
   let p := processed nw wf items in
   count_act is_quit tr = 1%nat /\
-  last tr AErrCall = AQuit /\
+  (quit_before_disc tr = true /\ quiet_after_quit tr = true) /\
   count_act is_disc tr = 1%nat /\
   In (AEvDisconnected (inb + count_stanzas p)) tr /\
   count_act is_err tr = ((if ends_by_close nw wf items then 0 else 1) + length (filter is_serr p))%nat /\
@@ -25,7 +28,7 @@ Theorem C12_reported_once : forall items inb nw wf,
 Proof.
   intros items inb nw wf. cbn zeta.
   pose proof (crecv_loss items inb nw wf) as H. cbn zeta in H.
-  destruct H as (Hq & Hl & Hd & He & Hin).
+  destruct H as (Hq & (Hl1 & Hl2) & Hd & He & Hin).
   repeat split; try assumption. apply crecv_stanzas_once.
 Qed.
 
@@ -56,7 +59,7 @@ Qed.
 
 Example C12_example :
   crecv 2 0 (Some 1%nat) [IStanza KMsg 1; ISmR; IStanza KMsg 2]
-  = [ARouteAsync (IStanza KMsg 1); AWriteFail 3; AErrCall; AEvDisconnected 3; AQuit].
+  = [ARouteAsync (IStanza KMsg 1); AWriteFail 3; AQuit; AErrCall; AEvDisconnected 3].
 Proof. reflexivity. Qed.
 
 Print Assumptions C12_reported_once.
